@@ -184,7 +184,7 @@ func rawAddr(addr string) (string, string) {
 
 func TestC12(t *testing.T) {
 	scenarios := []string{"tls-no-config", "tls-no-cert", "addr-in-use", "listen-twice", "dial-refused", "bad-address", "bad-scheme",
-		"handshake-garbage", "handshake-truncated", "hook-reject-listener", "hook-reject-dialer", "proto-reject", "lost-after-attach",
+		"handshake-garbage", "handshake-truncated", "hook-reject-listener", "hook-reject-dialer", "proto-reject", "proto-reject-dialer", "lost-after-attach",
 		"recv-timeout", "send-timeout", "no-peers", "proto-state", "closed-listener", "closed-dialer"}
 	rapid.Check(t, func(t *rapid.T) {
 		sc := rapid.SampledFrom(scenarios).Draw(t, "scenario")
@@ -440,6 +440,40 @@ func TestC12(t *testing.T) {
 			time.Sleep(10 * time.Millisecond)
 			same = e.followUps(S, l, d)
 			e.roundTrip(peer, S, fmt.Sprintf("after %d rejected connection(s) the endpoint must carry on", rejects))
+		case "proto-reject-dialer":
+			// S (PAIR) already has a peer through its listener; a dialer of S reaches a second
+			// listener, so S's own protocol refuses that pipe (repeatedly).  The dialer must carry
+			// on: once the first peer has gone it takes over.
+			l, err := S.NewListener(addr, fixture.ListenOpts(tr))
+			if err != nil {
+				t.Fatalf("harness: %v", err)
+			}
+			if err := l.Listen(); err != nil {
+				t.Skip("port busy")
+			}
+			first := fixture.New("pair")
+			fev := fixture.Hook(first)
+			if _, err := fixture.Dial(first, addr); err != nil {
+				t.Fatalf("harness: %v", err)
+			}
+			if !fev.WaitAttached(1, 3*time.Second) {
+				t.Fatalf("harness: first peer not attached")
+			}
+			addr2 := fixture.Addr(tr)
+			if err := peer.ListenOptions(addr2, fixture.ListenOpts(tr)); err != nil {
+				_ = first.Close()
+				t.Skip("port busy")
+			}
+			d, err := S.NewDialer(addr2, asyncOpts())
+			if err != nil {
+				t.Fatalf("harness: %v", err)
+			}
+			e.call("dialer.Dial()", d.Dial)
+			time.Sleep(time.Duration(rapid.IntRange(5, 40).Draw(t, "refusalMs")) * time.Millisecond) // several refusals
+			occurred = true
+			same = e.followUps(S, nil, d)
+			e.call("first.Close()", first.Close)
+			e.roundTrip(S, peer, "after the protocol refused the dialer's connections while another peer was attached, the dialer must take over once that peer is gone")
 		case "lost-after-attach":
 			l, err := S.NewListener(addr, fixture.ListenOpts(tr))
 			if err != nil {
